@@ -1,3 +1,329 @@
-"""StarPU executor rules (thorough tier) — placeholder filled in below."""
+"""StarPU executor rules (thorough tier of C03), parsed through the declaration-only stub starpu.h.
+
+ S1 codelet table vs submission: each starpu_insert_task(&cl, ...) passes exactly cl.nbuffers
+    (mode, handle) pairs whose modes equal cl.modes[i]
+ S2 pack / unpack agreement: the STARPU_VALUE sequence and the callback's starpu_codelet_unpack_args
+    agree in count, order and byte size
+ S3 effects vs access modes: in the callback bound to the codelet, buffers[i] feeds (pointer and size
+    from the same i) one memory block of one container; every block the wrapper call writes is
+    backed by a buffer submitted RW (commute), every block it reads by some buffer
+ S4 handle slot vs block: the handle passed at position i is slot k of the handle array and slot k
+    was registered (handle builder) for the block the callback uses buffers[i] as; parent/child
+    handles come from level L / L+1
+ S5 join: starpu_task_wait_for_all() follows every stage call and precedes the release of the
+    index buffers and handles;  S6 per-worker kernel selected by starpu_worker_get_id() in callbacks
+"""
+import re
+
+import tbf
+import stages
+import effects
+import coherence
+from tbf import walk, kids, strip, AnalysisBroken
+
+CLASSES = [("TbfSmStarpuAlgorithm", "TbfStarPUHandleBuilder"), ("TbfSmStarpuAlgorithmTsm", "TbfStarPUHandleBuilderTsm")]
+BLOCK_OF_PTR = {"getDataPtr": "objectData", "getMultipolePtr": "objectMultipole", "getLocalPtr": "objectLocal", "getRhsPtr": "objectRhs"}
+
+
+def norm_mode(t):
+    t = t.replace(" ", "")
+    if "STARPU_RW" in t or "STARPU_W" in t:
+        return "RW+COMMUTE" if "COMMUTE" in t else "RW"
+    if "STARPU_R" in t:
+        return "R"
+    return "?" + t
+
+
+def codelets(facts, cls):
+    fn = [m for m in facts.methods_of(cls) if m["name"] == "initCodelet"]
+    if len(fn) != 1:
+        raise AnalysisBroken("%s::initCodelet not found" % cls)
+    out = {}
+    for x in walk(tbf.body(fn[0])):
+        if x.get("k") in ("BinaryOperator", "CompoundAssignOperator") and x.get("op") in ("=", "|="):
+            lhs = facts.ntext(kids(x)[0])
+            rhs = facts.ntext(kids(x)[1])
+            m = re.match(r"^(\w+)\.(\w+)(?:\[(\d+)\])?$", lhs)
+            if not m:
+                continue
+            cl = out.setdefault(m.group(1), {"modes": {}, "node": x})
+            if m.group(2) == "nbuffers":
+                cl["nbuffers"] = int(rhs)
+            elif m.group(2) == "modes":
+                cl["modes"][int(m.group(3))] = norm_mode(rhs)
+            elif m.group(2) == "cpu_funcs":
+                mm = re.search(r"::(\w+Callback)", rhs)
+                cl["callback"] = mm.group(1) if mm else rhs
+    return {k: v for k, v in out.items() if "nbuffers" in v}
+
+
+def parse_insert(facts, fm, call):
+    args = tbf.call_args(call)
+    cl = facts.ntext(args[0]).lstrip("&")
+    values, buffers = [], []
+    i = 1
+    while i < len(args):
+        t = facts.ntext(args[i])
+        if t == "STARPU_VALUE":
+            v = strip(args[i + 1])
+            var = strip(kids(v)[0]) if v.get("k") == "UnaryOperator" and v.get("op") == "&" else v
+            d = fm.decls.get(var.get("did")) if var.get("k") == "DeclRefExpr" else None
+            values.append({"var": var.get("name", facts.ntext(var)), "size": facts.ntext(args[i + 2]), "type": (d or {}).get("t", var.get("t", "?")), "node": args[i + 1]})
+            i += 3
+        elif t in ("STARPU_PRIORITY", "STARPU_NAME"):
+            i += 2
+        elif "STARPU_R" in t or "STARPU_W" in t:
+            buffers.append({"mode": norm_mode(t), "handle": facts.ntext(args[i + 1]), "node": args[i + 1]})
+            i += 2
+        elif t == "0":
+            i += 1
+        else:
+            raise AnalysisBroken("%s: unrecognised starpu_insert_task argument '%s'" % (facts.loc(args[i]), t))
+    return cl, values, buffers
+
+
+SIZE_CLASS = [(r"sizeof\(void\*\)", "ptr"), (r"sizeof\(size_t\)", "size_t"), (r"sizeof\(longint\)|sizeof\(long\)", "long"), (r"sizeof\(int\)", "int")]
+
+
+def size_class_of_sizeof(t):
+    t = t.replace(" ", "")
+    for pat, c in SIZE_CLASS:
+        if re.match("^" + pat + "$", t):
+            return c
+    return "?" + t
+
+
+def size_class_of_type(t):
+    t = t.strip()
+    if t.endswith("*"):
+        return "ptr"
+    if t in ("size_t", "unsigned long", "std::size_t"):
+        return "size_t"
+    if t in ("long", "long int"):
+        return "long"
+    if t == "int":
+        return "int"
+    return "?" + t
+
+
+BYTES = {"ptr": 8, "size_t": 8, "long": 8, "int": 4}
+
+
+def callback_model(facts, name):
+    fns = [f for f in facts.functions if f["name"] == name and f.get("cls") == "TbfSmStarpuCallbacks" and not f.get("inst")]
+    if len(fns) != 1:
+        raise AnalysisBroken("callback %s not found" % name)
+    fn = fns[0]
+    fm = stages.FnModel(facts, fn)
+    unpack = [c for c in walk(fm.body) if c.get("k") == "CallExpr" and tbf.callee_name(c) == "starpu_codelet_unpack_args"]
+    if len(unpack) != 1:
+        raise AnalysisBroken("%s: %d unpack calls" % (name, len(unpack)))
+    uv = []
+    for a in tbf.call_args(unpack[0])[1:]:
+        v = strip(kids(strip(a))[0])
+        d = fm.decls.get(v.get("did"))
+        uv.append({"var": v.get("name"), "type": (d or {}).get("t", "?")})
+    # locals fed by buffers[i]
+    fed = {}   # var did -> (i, 'ptr'|'size')
+    for v in fm.decls.values():
+        if v.get("k") != "VarDecl" or not kids(v):
+            continue
+        t = facts.ntext(kids(v)[0])
+        m = re.search(r"STARPU_VARIABLE_GET_(PTR|ELEMSIZE)\(buffers\[(\d+)\]\)", t)
+        if m:
+            fed[v["did"]] = (int(m.group(2)), "ptr" if m.group(1) == "PTR" else "size", v["name"])
+    # containers constructed from them
+    containers = {}   # var did -> {"name", "slots": [(buffer idx or None) per block slot], "const": bool}
+    for v in fm.decls.values():
+        if v.get("k") != "VarDecl" or "ContainerClass" not in v.get("t", "") or not kids(v):
+            continue
+        init = strip(kids(v)[0])
+        cargs = [strip(a) for a in kids(init)] if init.get("k") in ("ParenListExpr", "CXXUnresolvedConstructExpr", "InitListExpr", "CXXConstructExpr") else []
+        slots = []
+        for j in range(0, len(cargs) - 1, 2):
+            p, s = cargs[j], cargs[j + 1]
+            if p.get("k") == "CXXNullPtrLiteralExpr" or facts.ntext(p) == "nullptr":
+                slots.append(None)
+                continue
+            fp, fs = fed.get(p.get("did")), fed.get(s.get("did"))
+            slots.append({"ptr": fp, "size": fs, "node": p})
+        containers[v["did"]] = {"name": v["name"], "slots": slots, "const": v["t"].startswith("const "), "cells": "CellContainerClass" in v["t"], "node": v}
+    wcalls = []
+    for c in walk(fm.body):
+        if c.get("k") in ("CallExpr", "CXXMemberCallExpr"):
+            callee = strip(kids(c)[0])
+            base = tbf.call_base(c)
+            if base is not None and facts.ntext(base).endswith("kernelWrapper"):
+                wcalls.append(c)
+    return {"fn": fn, "fm": fm, "unpack": uv, "containers": containers, "wcalls": wcalls}
+
+
+def handle_slots(facts, builder):
+    """handle-array slot -> block, from the registration calls of the builder"""
+    out = {}
+    for fn in facts.functions:
+        if fn.get("cls") != builder or not re.match(r"^Get\w*Handles\w*$", fn["name"]):
+            continue
+        regs = {}
+        for x in walk(tbf.body(fn)):
+            if x.get("k") == "CallExpr" and tbf.callee_name(x) == "starpu_variable_data_register":
+                a = tbf.call_args(x)
+                h = [y.get("name") for y in walk(a[0]) if y.get("k") == "DeclRefExpr"][0]
+                p = [tbf.callee_name(y) for y in walk(a[2]) if y.get("k") in ("CallExpr", "CXXMemberCallExpr") and (tbf.callee_name(y) or "") in BLOCK_OF_PTR]
+                regs[h] = BLOCK_OF_PTR[p[0]] if p else "?"
+        for x in walk(tbf.body(fn)):
+            if x.get("k") == "VarDecl" and "std::array<starpu_data_handle_t" in x.get("t", ""):
+                names = [y.get("name") for y in walk(x) if y.get("k") == "DeclRefExpr" and y.get("name") in regs]
+                kind = "particles" if "Particle" in fn["name"] else "cells"
+                out[kind + ":" + fn["name"]] = [regs[n] for n in names]
+    return out
+
+
 def run_c03(res):
-    pass
+    facts = tbf.scan("starpu")
+    res.units.append("umbrella TU 'starpu' (core + smstarpu headers, declaration-only starpu.h stub; %d function patterns)" % len(facts.functions))
+    res.assumptions.append("StarPU clauses: stubs/starpu/starpu.h only declares names and constants; the semantics assumed for access modes, STARPU_VALUE packing and starpu_task_wait_for_all are those documented by StarPU")
+    res.rule("C03.S1-S6 StarPU: codelet table vs submission, pack/unpack agreement, effects vs access modes, handle slot vs block and level, join, per-worker kernel")
+    cmap = effects.container_map(facts)
+    weff = effects.wrapper_effects(facts, cmap)
+    written = effects.written_fields(weff)
+    wroles = None
+    import c02
+    wroles = c02.wrapper_param_roles(facts, cmap)
+    ninsert = 0
+    for cls, builder in CLASSES:
+        cls_fields = {f["name"] for f in facts.cls(cls)["fields"]}
+        cl = codelets(facts, cls)
+        hslots = handle_slots(facts, builder)
+        if not cl or not hslots:
+            raise AnalysisBroken("%s: codelets / handle slots not recognised" % cls)
+        for m in facts.methods_of(cls):
+            if m["name"] not in ("P2M", "M2M", "M2L", "L2L", "L2P", "P2P"):
+                continue
+            fm = stages.FnModel(facts, m)
+            for call in walk(fm.body):
+                if call.get("k") != "CallExpr" or tbf.callee_name(call) != "starpu_insert_task":
+                    continue
+                ninsert += 1
+                name, values, buffers = parse_insert(facts, fm, call)
+                f = tbf.rel(facts.path_of(call))
+                key = "%s::%s %s@%d" % (cls, m["name"], name, call["l"][1])
+                c = cl.get(name)
+                if c is None:
+                    raise AnalysisBroken("%s: codelet %s has no table entry" % (facts.loc(call), name))
+                res.instance("C03.S1.codelet-table", key, facts.loc(call), "nbuffers %d modes %s ; submitted %s" % (c["nbuffers"], [c["modes"].get(i) for i in range(c["nbuffers"])], [b["mode"] for b in buffers]))
+                if len(buffers) != c["nbuffers"]:
+                    res.violation("C03.S1.codelet-table", f, m["qname"], name + ":count", call["l"][1], "submission passes %d handles, the codelet declares %d buffers" % (len(buffers), c["nbuffers"]))
+                for i, b in enumerate(buffers):
+                    if i < c["nbuffers"] and c["modes"].get(i) != b["mode"]:
+                        res.violation("C03.S1.codelet-table", f, m["qname"], "%s:mode[%d]" % (name, i), call["l"][1], "handle %d submitted with mode %s, the codelet declares %s" % (i, b["mode"], c["modes"].get(i)))
+                cb = callback_model(facts, c["callback"])
+                # S2
+                res.instance("C03.S2.pack-unpack", key, facts.loc(call), "packed %s ; unpacked %s" % ([(v["var"], v["size"]) for v in values], [(u["var"], u["type"]) for u in cb["unpack"]]))
+                if len(values) != len(cb["unpack"]):
+                    res.violation("C03.S2.pack-unpack", f, m["qname"], name + ":count", call["l"][1], "%d values packed, %s unpacks %d" % (len(values), c["callback"], len(cb["unpack"])))
+                for i, (v, u) in enumerate(zip(values, cb["unpack"])):
+                    ps, us = size_class_of_sizeof(v["size"]), size_class_of_type(u["type"])
+                    if ps.startswith("?") or us.startswith("?"):
+                        raise AnalysisBroken("%s: cannot classify packed size '%s' / unpacked type '%s'" % (facts.loc(call), v["size"], u["type"]))
+                    if BYTES[ps] != BYTES[us]:
+                        res.violation("C03.S2.pack-unpack", f, m["qname"], "%s:value[%d]" % (name, i), call["l"][1], "value %d ('%s') packed with %s bytes, unpacked into '%s' (%s, %d bytes)" % (i, v["var"], v["size"], u["var"], u["type"], BYTES[us]))
+                    vt = size_class_of_type(v["type"].replace("const ", ""))
+                    if not vt.startswith("?") and BYTES[vt] < BYTES[ps]:
+                        res.violation("C03.S2.pack-unpack", f, m["qname"], "%s:value[%d]:overread" % (name, i), call["l"][1], "value %d ('%s', %s) is packed with %s bytes: reads past the variable" % (i, v["var"], v["type"], v["size"]))
+                # S3 / S4
+                kind_of = {}
+                for did, cont in cb["containers"].items():
+                    order = ["objectData", "objectMultipole", "objectLocal"] if cont["cells"] else ["objectData", "objectRhs"]
+                    for si, sl in enumerate(cont["slots"]):
+                        if sl is None:
+                            continue
+                        blk = order[si]
+                        if sl["ptr"] is None or sl["size"] is None or sl["ptr"][0] != sl["size"][0] or sl["ptr"][1] != "ptr" or sl["size"][1] != "size":
+                            res.violation("C03.S3.effects-vs-modes", tbf.rel(facts.path_of(cont["node"])), cb["fn"]["qname"], "%s:%s" % (cont["name"], blk), cont["node"]["l"][1],
+                                          "container '%s' block %s is not built from the pointer and size of one buffer" % (cont["name"], blk))
+                            continue
+                        kind_of[(did, blk)] = sl["ptr"][0]
+                for wc in cb["wcalls"]:
+                    meth = tbf.callee_name(wc)
+                    e = weff.get(meth)
+                    if e is None:
+                        raise AnalysisBroken("callback %s calls unknown wrapper method %s" % (c["callback"], meth))
+                    args = [strip(a) for a in tbf.call_args(wc)]
+                    if not any("starpu_worker_get_id" in facts.ntext(a) for a in args):
+                        res.violation("C03.S6.per-worker-kernel", tbf.rel(facts.path_of(wc)), cb["fn"]["qname"], meth, wc["l"][1], "callback does not select the kernel by starpu_worker_get_id()")
+                    for a, pe in zip(args, e["params"]):
+                        if not pe or a.get("k") != "DeclRefExpr" or a.get("did") not in cb["containers"]:
+                            continue
+                        cont = cb["containers"][a["did"]]
+                        for blk, mode in pe.items():
+                            if blk not in written and blk != "objectData":
+                                continue
+                            bi = kind_of.get((a["did"], blk))
+                            res.instance("C03.S3.effects-vs-modes", "%s %s.%s" % (key, cont["name"], blk), facts.loc(wc), "%s: %s -> buffers[%s] mode %s" % (meth, mode, bi, c["modes"].get(bi) if bi is not None else None))
+                            if bi is None:
+                                if blk in written:
+                                    res.violation("C03.S3.effects-vs-modes", tbf.rel(facts.path_of(wc)), cb["fn"]["qname"], "%s:%s.%s" % (name, cont["name"], blk), wc["l"][1],
+                                                  "%s %s block %s of '%s' but the callback builds that block from no buffer (nullptr)" % (meth, "writes" if mode == "W" else "reads", blk, cont["name"]))
+                                continue
+                            if mode == "W" and not c["modes"].get(bi, "").startswith("RW"):
+                                res.violation("C03.S3.effects-vs-modes", tbf.rel(facts.path_of(wc)), cb["fn"]["qname"], "%s:%s.%s" % (name, cont["name"], blk), wc["l"][1],
+                                              "%s writes block %s of '%s' = buffers[%d], which the codelet declares %s" % (meth, blk, cont["name"], bi, c["modes"].get(bi)))
+                            # S4: handle slot registered for this block, and level of the handle
+                            if bi < len(buffers):
+                                h = buffers[bi]["handle"]
+                                mm = re.match(r"^(\w+)((?:\[[^\]]+\])+)$", h)
+                                if not mm:
+                                    raise AnalysisBroken("%s: handle expression '%s' not recognised" % (facts.loc(call), h))
+                                idxs = re.findall(r"\[([^\]]+)\]", mm.group(2))
+                                k = int(idxs[-1])
+                                hk = ("cells" if cont["cells"] else "particles")
+                                hname = mm.group(1)
+                                cands = [v for kk, v in hslots.items() if kk.startswith(hk + ":") and (("Src" in hname) == ("Src" in kk)) and (("Tgt" in hname) == ("Tgt" in kk))]
+                                if not cands:
+                                    raise AnalysisBroken("%s: no handle builder matches the handle array '%s'" % (facts.loc(call), hname))
+                                ok = any(k < len(v) and v[k] == blk for v in cands)
+                                res.instance("C03.S4.handle-slot", "%s buffers[%d]" % (key, bi), facts.loc(buffers[bi]["node"]), "%s -> slot %d, callback uses it as %s.%s" % (h, k, cont["name"], blk))
+                                if not ok:
+                                    res.violation("C03.S4.handle-slot", f, m["qname"], "%s:buffers[%d]" % (name, bi), call["l"][1],
+                                                  "handle %s is slot %d of the handle array (registered as %s) but the callback uses buffers[%d] as block %s of '%s'" % (h, k, [v[k] if k < len(v) else None for v in cands], bi, blk, cont["name"]))
+                    # level agreement for parent/children/transfer
+                    wr = wroles.get(meth)
+                    if wr and wr["op"] in ("M2M", "L2L", "M2L") and len(buffers) == c["nbuffers"]:
+                        want = {"M2M": {"parent": 0, "children": 1}, "L2L": {"parent": 0, "children": 1}, "M2L": {"target": 0, "sources": 0}}[wr["op"]]
+                        for role, delta in want.items():
+                            for pi in wr["roles"].get(role, []):
+                                a = args[pi]
+                                if a.get("did") not in cb["containers"]:
+                                    continue
+                                for blk in ("objectMultipole", "objectLocal"):
+                                    bi = kind_of.get((a["did"], blk))
+                                    if bi is None or bi >= len(buffers):
+                                        continue
+                                    idxs = re.findall(r"\[([^\]]+)\]", buffers[bi]["handle"])
+                                    lvl = idxs[0].replace(" ", "")
+                                    exp = "idxLevel" if delta == 0 else "idxLevel+1"
+                                    res.instance("C03.S4.handle-level", "%s %s" % (key, role), facts.loc(buffers[bi]["node"]), "handle level [%s], expected [%s]" % (lvl, exp))
+                                    if lvl != exp:
+                                        res.violation("C03.S4.handle-level", f, m["qname"], "%s:%s" % (name, role), call["l"][1], "the %s handle is taken at level [%s], the wrapper treats that group as level %s" % (role, lvl, exp))
+        # S5 join
+        ex = [m for m in facts.methods_of(cls) if m["name"] == "execute"]
+        if len(ex) != 1:
+            raise AnalysisBroken("%s::execute not found" % cls)
+        b = tbf.body(ex[0])
+        top = kids(b)
+        def line_of(pred):
+            for s in top:
+                if pred(s):
+                    return s["l"][1]
+            return None
+        last_stage = max([s["l"][1] for s in top if s.get("k") == "IfStmt" and "inOperationToProceed" in facts.ntext(s["c"][0])] or [0])
+        wait = line_of(lambda s: s.get("k") == "CallExpr" and tbf.callee_name(s) == "starpu_task_wait_for_all")
+        clear = line_of(lambda s: "vecIndexBuffer.clear" in facts.ntext(s))
+        clean = line_of(lambda s: "CleanCellHandles" in facts.ntext(s) or "CleanParticleHandles" in facts.ntext(s))
+        res.instance("C03.S5.join", cls + "::execute", facts.loc(ex[0]), "last stage @%s, wait @%s, buffers cleared @%s, handles released @%s" % (last_stage, wait, clear, clean))
+        ok = wait is not None and wait > last_stage and (clear is None or clear > wait) and (clean is None or clean > wait)
+        if not ok or any(x.get("k") == "ReturnStmt" for x in walk(b)):
+            res.violation("C03.S5.join", tbf.rel(facts.path_of(ex[0])), ex[0]["qname"], "wait", ex[0]["l"][1],
+                          "starpu_task_wait_for_all() must follow every stage submission and precede the release of the index buffers and data handles")
+    res.floor("C03.S1", ninsert, 14, "starpu_insert_task sites")
